@@ -8,7 +8,7 @@ for k in pure compiled; do
   [ "$which" = both ] || [ "$which" = "$k" ] || continue
   mkdir -p "$base/$k"; rsync -a --exclude .git --exclude '*.so' --exclude '*.c' --exclude __pycache__ --exclude build "$src/" "$base/$k/"
   if [ $k = compiled ]; then (cd "$base/$k" && /venv/bin/python setup.py build_ext --inplace -j16 >/dev/null 2>&1) || { echo "compiled build FAILED"; rc=1; continue; }; fi
-  (cd "$base/$k" && PYTHONPATH="$base/$k" /venv/bin/python -m pytest -q -p no:cacheprovider --timeout=900 --continue-on-collection-errors -x --deselect asynq/tests/test_pyright.py 2>&1 | tail -n 4) 
+  (cd "$base/$k" && PYTHONPATH="$base/$k" /venv/bin/python -m pytest -q -p no:cacheprovider --timeout=900 --continue-on-collection-errors --deselect asynq/tests/test_pyright.py 2>&1 | tail -n 4) 
   [ ${PIPESTATUS[0]} -eq 0 ] || rc=1
   echo "== $k done"
 done
